@@ -3,6 +3,7 @@ package checks
 import (
 	"encoding/binary"
 	"fmt"
+	"github.com/jackc/pgx/v5/pgtype"
 	"sort"
 	"strings"
 
@@ -249,6 +250,17 @@ func (ch c14) checkRows(c *core.Ctx, t c14table, obs c14obs, wantRows int, wantE
 func (ch c14) Run(c *core.Ctx) {
 	env := hs.Start(hs.Parse)
 	defer env.Stop()
+	// the library's scanner constructor is an exported helper: text scanners for the same column types
+	// are built and used in this process before any binary COPY (nothing about them may stick)
+	if c.Batch%2 == 0 {
+		tm := pgtype.NewMap()
+		for _, o := range c14types {
+			if sc, err := wire.NewScanner(tm, wire.Column{Oid: oid.Oid(o)}, wire.TextFormat); err == nil {
+				sc([]byte("1"))
+				c.Count("text_scanners_built_first", 1)
+			}
+		}
+	}
 	n := 120
 	if c.Tier == "thorough" {
 		n = 3200
